@@ -21,7 +21,8 @@ P = {
         "Spine.StoreF",
         "Spine.C02Idem",
         "Spine.HashKey",
-        "Spine.SortGen"
+        "Spine.SortGen",
+        "Spine.C02Paths"
     ],
     "drivers": [
         "drv_upd"
@@ -33,11 +34,13 @@ P = {
     ],
     "generated": [
         "shapes",
-        "wiring"
+        "wiring",
+        "updpaths"
     ],
     "generated_files": [
         "Shapes.lean",
-        "Wiring.lean"
+        "Wiring.lean",
+        "UpdPaths.lean"
     ],
     "trusted_base": [
         "model Spine.updateList / updateStore / updateData written by hand from model/update.go, model/collection_operations.go, spine/function_data.go; items abstracted to List (Option Nat) with one Shape per list type (G3)",
